@@ -55,4 +55,5 @@ PROPS = {
     "C17": {"cone": [r"coll\..*", r"geonum\.(scale|rotate|dot)", r"angle\.project"] + ARITH, "lines": 60000, "oracle_cases": 12000},
     "C18": {"cone": TRAITS + [r"em\.const\..*"] + ARITH, "lines": 120000, "oracle_cases": 30000},
     "C19": {"cone": TRAITS + ARITH, "lines": 120000, "oracle_cases": 30000},
+    "C20": {"custom": lambda root, pid, tier, seed: __import__("c20").run(root, pid, tier, seed)},
 }
